@@ -6,6 +6,7 @@ import (
 	"io"
 	"reflect"
 	"time"
+	"unsafe"
 
 	"github.com/uber-go/tally/v4/verifrt"
 )
@@ -113,6 +114,63 @@ func VerifShardOf(s Scope) int {
 				if v := it.Value(); v.Kind() == reflect.Ptr && v.Pointer() == reflect.ValueOf(sc).Pointer() {
 					return 0
 				}
+			}
+		}
+	}
+	return -1
+}
+
+// VerifPoolLen returns the number of objects an ObjectPool holds at the moment (-1: the pool has another shape in
+// this tree). By reflection; in an instrumented build the channel is the controlled runtime's.
+func VerifPoolLen(p *ObjectPool) int {
+	if p == nil {
+		return -1
+	}
+	v := reflect.ValueOf(p).Elem().FieldByName("values")
+	if !v.IsValid() {
+		return -1
+	}
+	switch v.Kind() {
+	case reflect.Chan:
+		return v.Len()
+	case reflect.Ptr:
+		if v.IsNil() {
+			return 0
+		}
+		// *verifrt.Chan[T]: ask its Len method
+		m := reflect.NewAt(v.Type(), unsafe.Pointer(v.UnsafeAddr())).Elem().MethodByName("Len")
+		if m.IsValid() {
+			if out := m.Call(nil); len(out) == 1 && out[0].Kind() == reflect.Int {
+				return int(out[0].Int())
+			}
+		}
+	}
+	return -1
+}
+
+// VerifPoolDrainTo takes objects out of an ObjectPool, oldest first, until at most keep are left, without going through
+// Get (set-up of a scenario's starting state); returns how many are left, -1 if the pool has another shape.
+func VerifPoolDrainTo(p *ObjectPool, keep int) int {
+	if p == nil {
+		return -1
+	}
+	v := reflect.ValueOf(p).Elem().FieldByName("values")
+	if !v.IsValid() {
+		return -1
+	}
+	v = reflect.NewAt(v.Type(), unsafe.Pointer(v.UnsafeAddr())).Elem()
+	switch v.Kind() {
+	case reflect.Chan:
+		for v.Len() > keep {
+			if _, ok := v.TryRecv(); !ok {
+				break
+			}
+		}
+		return v.Len()
+	case reflect.Ptr:
+		if m := v.MethodByName("DrainTo"); m.IsValid() {
+			if out := m.Call([]reflect.Value{reflect.ValueOf(keep)}); len(out) == 1 {
+				return int(out[0].Int())
 			}
 		}
 	}
